@@ -57,6 +57,11 @@ def server_scenario_st(tier):
                                'ns': st.integers(0, 2), 'auth': auth}),
         st.fixed_dictionaries({'op': st.just('cdisc'), 'c': ci}),
         st.fixed_dictionaries({'op': st.just('sdisc'), 'c': ci}),
+        # server.disconnect() whose DISCONNECT packet cannot be sent: the
+        # connection was closed meanwhile, or the transport's send fails
+        st.fixed_dictionaries({'op': st.just('sdisc'), 'c': ci,
+                               'send_fails': st.sampled_from(['closed',
+                                                              'oserror'])}),
         st.fixed_dictionaries({'op': st.just('lose'), 't': tt}),
         st.fixed_dictionaries({'op': st.just('event'), 'c': ci,
                                'name': st.sampled_from(['a', 'b', 'zz']),
@@ -497,8 +502,53 @@ def _run(case, aio, coro, setup, w, socketio, n_transports):
                 w.h.settle()
                 w.mark_dead(ci)
             elif k == 'sdisc':
-                api(step, 'disconnect', lambda: sio.disconnect(
-                    c['sid'], namespace=c['ns']))
+                sf = op.get('send_fails')
+                if sf:
+                    import engineio
+                    exc = engineio.exceptions.SocketIsClosedError() \
+                        if sf == 'closed' else OSError('send failed')
+                    real = (sio.eio.send, sio.eio.send_packet)
+                    victim = w.t[c['t']]
+
+                    def mk_bad(orig):
+                        # (only the victim's transport is affected)
+                        if w.h.aio:
+                            async def bad(eio_sid, *a, **k):
+                                if eio_sid == victim:
+                                    raise exc
+                                return await orig(eio_sid, *a, **k)
+                        else:
+                            def bad(eio_sid, *a, **k):
+                                if eio_sid == victim:
+                                    raise exc
+                                return orig(eio_sid, *a, **k)
+                        return bad
+                    sio.eio.send = mk_bad(real[0])
+                    sio.eio.send_packet = mk_bad(real[1])
+                    try:
+                        try:
+                            r = w.do(sio.disconnect(c['sid'],
+                                                    namespace=c['ns']))
+                            trace.append(('result', step, 'disconnect', r))
+                        except (OSError, engineio.exceptions.EngineIOError) \
+                                as e:
+                            trace.append(('raised', step, 'disconnect',
+                                          type(e).__name__))
+                    finally:
+                        sio.eio.send, sio.eio.send_packet = real
+                    w.h.settle()
+                    trace.append(('connected-after', step,
+                                  sio.manager.is_connected(c['sid'],
+                                                           c['ns']),
+                                  sorted(map(repr, sio.rooms(
+                                      c['sid'], namespace=c['ns'])))))
+                    labels['faults'] += 1
+                    labels['entry_points'].add('disconnect-send-fails')
+                    if sio.manager.is_connected(c['sid'], c['ns']):
+                        continue
+                else:
+                    api(step, 'disconnect', lambda: sio.disconnect(
+                        c['sid'], namespace=c['ns']))
                 w.mark_dead(ci)
             elif k == 'event':
                 labels['entry_points'].add('EVENT')
